@@ -21,7 +21,7 @@ RULE = (
     "created in a tight loop, context / outputs / trigger of nested JSON values (astral and combining unicode, escapes, "
     "empty and 20k-character strings, ints beyond 2^63, finite floats, booleans, None); store -> retrieve / "
     "retrieve_stage compared field by field (contexts after one JSON round trip of the input); then a random subset F "
-    "of the updatable fields is changed and store_stage'd: fields in F hold the new values, everything else is as "
+    "of the updatable fields is changed and saved through one of the four save paths (store.store_stage / txn.store_stage, with / without expected_phase): fields in F hold the new values, everything else is as "
     "before. Messages: every class in MESSAGE_TYPES with generated field values pushed via SqliteQueue.push and via "
     "AtomicTransaction.push_message, polled, compared on type and non-metadata fields, and the two stored payloads "
     "compared with each other. Non-trivial = example with a non-default value in >= 1 field; distinct = (statuses, "
@@ -299,7 +299,14 @@ def _workflow_case(case: dict) -> dict:
             t.status = rnd.choice(list(WorkflowStatus))
             t.end_time = rnd.randrange(10**12)
             changed["task"] = t.id
-        store.store_stage(one)
+        path = rnd.choice(["plain", "plain_phase", "txn", "txn_phase"])
+        phase = before["status"] if path.endswith("phase") else None
+        if path.startswith("plain"):
+            store.store_stage(one, expected_phase=phase) if phase else store.store_stage(one)
+        else:
+            with store.transaction(w.queue) as txn:
+                txn.store_stage(one, expected_phase=phase) if phase else txn.store_stage(one)
+        obs[f"save_path_{path}"] += 1
         after = _stage_view(store.retrieve_stage(s0.id))
         obs["partial_updates_checked"] += 1
         expect = dict(before)
@@ -309,7 +316,9 @@ def _workflow_case(case: dict) -> dict:
         expect["tasks"] = [_task_view(t) for t in one.tasks]
         d = _diff(expect, after, "after-store_stage.")
         if d:
-            failures.append(("C19/store-stage-altered-other-field:" + d[0].split(":")[0].split(".")[-1].split("[")[0], [f"changed {sorted(changed)}"] + d[:3]))
+            fld = d[0].split(":")[0].split(".")[-1].split("[")[0]
+            kind = "changed-field-not-saved" if fld in changed or (fld in TASK_FIELDS and "task" in changed) else "store-stage-altered-other-field"
+            failures.append((f"C19/{kind}:{fld}", [f"save path {path}; changed {sorted(changed)}"] + d[:3]))
 
     try:
         prop()
